@@ -260,19 +260,21 @@ def hchacha20(key, nonce16):
     return struct.pack("<8I", *(st[0:4] + st[12:16]))
 
 
-def content_encrypt(enc, cek, iv, aad, plaintext):
+def content_encrypt(enc, cek, iv, aad, plaintext, lenient=False):
+    """lenient=True: a deliberately careless producer that does not check the CEK size (used to make
+    tokens under unsuitable keys for C06)."""
     kind, klen, ivlen = ENC[enc]
-    if len(cek) != klen or len(iv) != ivlen:
+    if (len(cek) != klen and not lenient) or len(iv) != ivlen:
         raise RefError("bad cek/iv size")
     if kind == "cbc":
-        half = klen // 2
+        half = len(cek) // 2
         mac_key, enc_key = cek[:half], cek[half:]
         pad = 16 - len(plaintext) % 16
         padded = plaintext + bytes([pad]) * pad
         e = Cipher(algorithms.AES(enc_key), modes.CBC(iv)).encryptor()
         ct = e.update(padded) + e.finalize()
         al = struct.pack(">Q", len(aad) * 8)
-        tag = hmac_def(CBC_HASH[klen], mac_key, aad + iv + ct + al)[:half]
+        tag = hmac_def(CBC_HASH[klen], mac_key, aad + iv + ct + al)[:klen // 2]
         return ct, tag
     if kind == "gcm":
         out = AESGCM(cek).encrypt(iv, plaintext, aad)
